@@ -47,7 +47,8 @@ Silent ==
   /\ KeepAux
   /\ \/ T_SuiteCheck
      \/ T_EndScenario
-     \/ (T_Setup /\ tpc' = "run_end")                       \* setup() raised KeyboardInterrupt: nothing is announced
+     \/ T_Setup                                            \* the stop check of setup(); a KeyboardInterrupt announces nothing
+     \/ T_StepCheck                                        \* the stop check of step(), made right after the STEP log point
      \/ (T_RunEnd /\ pend \in {"none", "failure", "flaky"}) \* run() returned / raised FailureGroup / Flaky: nothing is put
      \/ C_Get \/ C_Timeout \/ C_Alive \/ C_Join
      \/ (C_Drain /\ q = <<>>)
@@ -67,8 +68,8 @@ Logged ==
      \/ IsQ("INT") /\ (T_SuiteIntr1 \/ (T_RunEnd /\ pend = "ctrlc")) /\ UNCHANGED <<cnt, cntLimit, pendCtrlC, owedInt>>
      \/ IsQ("SF") /\ ((T_SuiteIntr2 /\ Line.st = "interrupted") \/ (T_SuiteFinish /\ Line.st = sst))
                   /\ UNCHANGED <<cnt, cntLimit, pendCtrlC, owedInt>>
-     \/ IsQ("ScS") /\ T_Setup /\ tpc' = "step_check" /\ UNCHANGED <<cnt, cntLimit, pendCtrlC, owedInt>>
-     \/ Is("STEP") /\ T_StepCheck /\ UNCHANGED <<cnt, cntLimit, pendCtrlC, owedInt>>
+     \/ IsQ("ScS") /\ T_SetupPut /\ UNCHANGED <<cnt, cntLimit, pendCtrlC, owedInt>>
+     \/ Is("STEP") /\ tpc = "step_check" /\ UNCHANGED vars /\ UNCHANGED <<cnt, cntLimit, pendCtrlC, owedInt>>
      \/ Is("R") /\ T_Step /\ UNCHANGED <<cnt, cntLimit, pendCtrlC, owedInt>>
      \/ Is("COUNT") /\ cnt' = Line.fails /\ cntLimit' = Line.limit /\ UNCHANGED vars /\ UNCHANGED <<pendCtrlC, owedInt>>
      \/ IsQ("ScF") /\ T_Teardown /\ Line.st = (IF scst = "none" THEN "skip" ELSE scst)
